@@ -59,6 +59,8 @@ def canon(v):
         return "ND"
     if v is None:
         return "N"
+    if type(v).__name__ == "_DimensionLink":
+        return f"L{v[0].name}.{v[1]}"
     if isinstance(v, (bool, np.bool_)):
         return f"b{bool(v)}"
     if isinstance(v, (int, np.integer)):
@@ -96,6 +98,7 @@ class Session:
         self.codes = {}
         self.log = []
         self.skipnames = set(SKIP_PARAMS)
+        self.keepstack = []
         self.emit("reset", "ok")
 
     def case(self):
@@ -117,7 +120,8 @@ class Session:
         return self.defids[id(pd)]
 
     def pdefs(self, o):
-        return list(o.p.paramDefs)
+        # serialNum is represented by the model's `serial` field, not as a value
+        return [pd for pd in o.p.paramDefs if pd.name != "serialNum"]
 
     def val(self, o, pd):
         from armi.reactor.parameters import NoDefault
@@ -178,9 +182,8 @@ class Session:
             self.batch["impl"].append(None); self.batch["cases"].append(self.case())
             self.batch["req"].append(f"serial {self.ids[id(o)]} {o.p.serialNum}")
             self.batch["impl"].append(None); self.batch["cases"].append(self.case())
-        for pd in list(self.defs):
-            self.batch["req"].append(f"dset {self.did(pd)} {pd.assigned}")
-            self.batch["impl"].append(None); self.batch["cases"].append(self.case())
+        self.batch["req"].append("dsetall [" + ",".join(str(pd.assigned) for pd in self.defs) + "]")
+        self.batch["impl"].append(None); self.batch["cases"].append(self.case())
         self.sync_counter()
         self.emit(f"dump [{','.join(str(self.ids[id(o)]) for o in walk)}]", self.lines(walk))
 
@@ -207,6 +210,20 @@ def preorder(o):
 SKIP_PARAMS = {"serialNum", "flags", "type", "assemNum", "name"}
 
 
+def make_rack(rng):
+    """a container with a CARTESIAN grid built with a non-zero offset and located children"""
+    from armi.reactor import composites, grids
+
+    rack = composites.Composite("rack")
+    rack.spatialGrid = grids.CartesianGrid.fromRectangle(1.0 + rng.randint(0, 3) / 4.0, 2.0, isOffset=True)
+    rack.spatialGrid.armiObject = rack
+    for k in range(rng.randint(1, 3)):
+        c = composites.Composite(f"slot{k}")
+        rack.add(c)
+        c.spatialLocator = rack.spatialGrid[k, -k, 0]
+    return rack
+
+
 def snapshot(ses, objs):
     """independent full dump: canonical forms of every parameter, cache and grid of the given objects"""
     out = {}
@@ -215,6 +232,17 @@ def snapshot(ses, objs):
         d["<cache>"] = canon({k: v for k, v in o.cached.items() if isinstance(k, str) and k.startswith("k")})
         g = o.spatialGrid
         d["<grid>"] = None if g is None else (canon(g._unitSteps), canon(g._bounds), canon(g._offset))
+        if g is not None:
+            # local coordinates of the located children: a function of this object's grid state only
+            cc = []
+            for c in o:
+                loc = c.spatialLocator
+                if loc is not None and type(loc).__name__ == "IndexLocation" and loc.grid is g:
+                    try:
+                        cc.append(canon(np.asarray(loc.getLocalCoordinates(), dtype=float)))
+                    except Exception:
+                        cc.append("unavailable")
+            d["<childcoords>"] = ",".join(cc)
         mat = getattr(o, "material", None)
         if mat is not None and hasattr(mat, "cached"):
             d["<matcache>"] = canon({k: v for k, v in mat.cached.items() if isinstance(k, str) and k.startswith("k")})
@@ -247,7 +275,7 @@ def new_value(rng, cur):
     return None
 
 
-def do_set(ses, t, scope_ok=True):
+def do_set(ses, t, only=None):
     """one plain parameter assignment on the real object + the model request"""
     rng = ses.rng
     from armi.reactor.parameters import NoDefault
@@ -255,7 +283,10 @@ def do_set(ses, t, scope_ok=True):
     pds = [pd for pd in ses.pdefs(t) if pd.name not in ses.skipnames]
     if not pds:
         return False
-    pd = rng.choice(pds)
+    kept = [pd for pd in pds if any(pd is q for ks in ses.keepstack for q in ks)]
+    pd = rng.choice(kept) if kept and rng.random() < 0.5 else rng.choice(pds)
+    if only is not None:
+        pd = only
     cur = ses.val(t, pd)
     if cur is NoDefault or type(cur).__name__ == "_DimensionLink":
         return False
@@ -275,7 +306,9 @@ def do_set(ses, t, scope_ok=True):
         ses.skipnames.add(pd.name)
         after = {p.name: canon(ses.val(t, p)) for p in ses.pdefs(t)}
         if after != before:
-            ses.ctx.fail("rejected-assignment-changed-values", "a refused assignment changes nothing", ses.case() | {"param": pd.name})
+            # a custom setter that changed something before refusing: outside the plain-assignment model
+            ses.ctx.count("custom setter changed values before raising (session ended)")
+            raise _Desync()
         return False
     after = {p.name: canon(ses.val(t, p)) for p in ses.pdefs(t)}
     side = [k for k in after if k != pd.name and after[k] != before[k]]
@@ -304,9 +337,13 @@ def do_cache(ses, t):
 
 def do_grid(ses, t):
     g = t.spatialGrid
-    if g is None or type(g).__name__ != "HexGrid":
+    if g is None or type(g).__name__ not in ("HexGrid", "CartesianGrid"):
         return
-    g.changePitch(g.pitch * ses.rng.choice([2.0, 0.5, 1.5]))
+    if type(g).__name__ == "HexGrid":
+        g.changePitch(g.pitch * ses.rng.choice([2.0, 0.5, 1.5]))
+    else:
+        xw, yw = g.pitch
+        g.changePitch(xw * ses.rng.choice([2.0, 0.5, 1.5]), yw * ses.rng.choice([2.0, 0.5, 3.0]))
     tr = ses.grid_triple(t)
     ses.log.append(f"changePitch {ses.ids[id(t)]}")
     ses.emit(f"grid {ses.ids[id(t)]} [{tr[0]},{tr[1]},{tr[2]}]", "ok " + ses.obj_line(t))
@@ -326,16 +363,17 @@ def body(ses, allobjs, depth, nsteps):
             scope(ses, allobjs, depth + 1)
 
 
-def scope(ses, allobjs, depth):
-    """one retainState scope on a random object, with a random keep-set; oracle around it"""
+def scope(ses, allobjs, depth, root=None, keep=None, script=None):
+    """one retainState scope on a (random) object, with a (random) keep-set; oracle around it"""
     ctx, rng = ses.ctx, ses.rng
-    root = rng.choice(allobjs)
+    root = root if root is not None else rng.choice(allobjs)
     objs = [root] + list(root.iterChildren(deep=True))
     ids = "[" + ",".join(str(ses.ids[id(o)]) for o in objs) + "]"
     pool = [pd for o in objs for pd in ses.pdefs(o) if pd.name not in ses.skipnames]
-    keep = []
-    if rng.random() < 0.6:
-        keep = list({id(pd): pd for pd in rng.sample(pool, min(len(pool), rng.randint(1, 25)))}.values())
+    if keep is None:
+        keep = []
+        if rng.random() < 0.6:
+            keep = list({id(pd): pd for pd in rng.sample(pool, min(len(pool), rng.randint(1, 25)))}.values())
     keepnames_by_obj = {id(o): {pd.name for pd in keep if any(pd is q for q in o.p.paramDefs)} for o in objs}
     entry = snapshot(ses, allobjs)
     ses.log.append(f"enter {ses.ids[id(root)]} keep={len(keep)} depth={depth}")
@@ -344,7 +382,14 @@ def scope(ses, allobjs, depth):
         for o in objs:
             if any(isinstance(k, str) and k.startswith("k") for k in o.cached):
                 ctx.fail("cache-visible-inside-scope", "the cache starts empty inside a scope", ses.case(), observed=ses.ids[id(o)])
-        body(ses, allobjs, depth, rng.randint(1, 8))
+        ses.keepstack.append(keep)
+        try:
+            if script is not None:
+                script()
+            else:
+                body(ses, allobjs, depth, rng.randint(1, 8))
+        finally:
+            ses.keepstack.pop()
         inner = snapshot(ses, allobjs)
     ses.log.append(f"exit {ses.ids[id(root)]}")
     kid = "[" + ",".join(str(ses.did(pd)) for pd in keep) + "]"
@@ -361,7 +406,7 @@ def scope(ses, allobjs, depth):
                 if a[name] != want:
                     key = ("retain-kept-parameter-lost" if kept else
                            "retain-cache-leaks" if name in ("<cache>", "<matcache>") else
-                           "retain-grid-not-restored" if name == "<grid>" else "retain-parameter-not-restored")
+                           "retain-grid-not-restored" if name in ("<grid>", "<childcoords>") else "retain-parameter-not-restored")
                     ctx.fail(key, "after the scope a kept parameter has its inner value, everything else its entry value",
                              ses.case() | {"object": ses.ids[id(o)], "type": type(o).__name__, "param": name, "depth": depth},
                              observed=a[name][:80] if a[name] else a[name], expected=want[:80] if want else want)
@@ -370,12 +415,57 @@ def scope(ses, allobjs, depth):
                          ses.case() | {"object": ses.ids[id(o)], "param": name})
 
 
+def directed_nested_keep(ses, allobjs):
+    """outer scope keeps a parameter that is assigned BEFORE an inner scope opens (on the same object, an ancestor
+    or a descendant); nothing is assigned on that object after the inner scope closes; the outer exit must keep it"""
+    from armi.reactor.parameters import NoDefault
+
+    rng = ses.rng
+    for _ in range(20):
+        t = rng.choice(allobjs)
+        pds = [pd for pd in ses.pdefs(t) if pd.name not in ses.skipnames
+               and isinstance(ses.val(t, pd), (int, float, str, type(None))) and ses.val(t, pd) is not NoDefault]
+        if pds:
+            break
+    else:
+        return
+    pd = rng.choice(pds)
+    chain = []
+    x = t
+    while x is not None and any(x is o for o in allobjs):
+        chain.append(x); x = x.parent
+    outer = rng.choice(chain)
+    desc = list(t.iterChildren(deep=True))
+    inner_roots = [t, rng.choice(chain)] + ([rng.choice(desc)] if desc else [])
+    levels = rng.randint(1, 3)
+
+    def nest(k):
+        def inner_body():
+            others = [o for o in allobjs if o is not t]
+            for _ in range(rng.randint(0, 3)):
+                do_set(ses, rng.choice(others))
+            if k > 1:
+                nest(k - 1)
+        scope(ses, allobjs, 2 + (levels - k), root=rng.choice(inner_roots), keep=[] if rng.random() < 0.6 else None, script=inner_body)
+
+    def outer_body():
+        if not do_set(ses, t, only=pd):
+            return
+        nest(levels)
+
+    more = [q for q in rng.sample(pds, min(len(pds), 3))]
+    scope(ses, allobjs, 1, root=outer, keep=[pd] + [q for q in more if q is not pd], script=outer_body)
+    ses.ctx.count("directed: kept parameter assigned before an inner scope")
+
+
 def do_copies(ses, allobjs):
     """deepcopy / pickle of a random subtree: equal values, fresh (deepcopy) or kept (pickle) serials, independence"""
     from armi.reactor.parameters import parameterCollections as pc
 
     ctx, rng = ses.ctx, ses.rng
-    root = rng.choice([o for o in allobjs if type(o).__name__ not in ("Reactor",)] or allobjs)
+    # (a bare Component is not a copy root here: deep-copying it follows its dimension links and silently copies
+    # the linked sibling components as well, which the model does not describe)
+    root = rng.choice([o for o in allobjs if type(o).__name__ != "Reactor" and not hasattr(o, "material")] or allobjs)
     src = preorder(root)
     how = rng.choice(["deepcopy", "pickle"])
     live = {o.p.serialNum for o in ses.objs}
@@ -397,7 +487,10 @@ def do_copies(ses, allobjs):
     ses.emit(f"{how} {srcids}", "ok " + line)
     ses.batch["mask_serial"].add(len(ses.batch["req"]) - 1)
     ses.batch["serial_sets"][len(ses.batch["req"]) - 1] = serials
-    ses.sync_counter() if False else None
+    # which copy got which of the fresh serials is not part of the property: align the model's assignment
+    for o in new:
+        ses.batch["req"].append(f"serial {ses.ids[id(o)]} {o.p.serialNum}")
+        ses.batch["impl"].append(None); ses.batch["cases"].append(ses.case())
     # oracle
     for a, b in zip(src, new):
         sa = {pd.name: canon(ses.val(a, pd)) for pd in a.p.paramDefs if pd.name != "serialNum"}
@@ -444,7 +537,7 @@ def do_readonly(ses, r, allobjs):
         pd = rng.choice([pd for pd in ses.pdefs(t) if pd.name != "serialNum"])
         cur = ses.val(t, pd)
         v = new_value(rng, cur if type(cur).__name__ != "_DimensionLink" else 1.0)
-        how = rng.choice(["item", "attr", "update", "api"])
+        how = rng.choice(["item", "attr", "update", "unlock"])
         try:
             if how == "item":
                 t.p[pd.name] = v
@@ -453,10 +546,7 @@ def do_readonly(ses, r, allobjs):
             elif how == "update":
                 t.p.update({pd.name: v})
             else:
-                if hasattr(t, "setNumberDensity") and type(t).__name__ not in ("Reactor", "Core"):
-                    t.setNumberDensity("U235", 0.0123)
-                else:
-                    t.p.readOnly = False
+                t.p.readOnly = False
             raised = False
         except RuntimeError:
             raised = True
@@ -482,6 +572,21 @@ def do_readonly(ses, r, allobjs):
     if not opened:
         ses.emit(f"enter [{','.join(str(ses.ids[id(o)]) for o in objs)}]", "reject")
     ctx.count("read-only assignments refused", refused)
+    # API-level setter on a read-only component (run last: it may leave the value changed)
+    comps = [o for o in objs if hasattr(o, "setNumberDensity") and hasattr(o, "material") and len(o.p.numberDensities or {})]
+    if comps:
+        c = rng.choice(comps)
+        nuc = sorted(c.p.numberDensities)[0]
+        old = c.getNumberDensity(nuc)
+        try:
+            c.setNumberDensity(nuc, old * 2.0 + 1e-3)
+            raised = False
+        except Exception:
+            raised = True
+        if c.getNumberDensity(nuc) != old:
+            ctx.fail("readonly-setNumberDensity-changes-value", "no value changes in a read-only reactor",
+                     {"object": type(c).__name__, "call": f"setNumberDensity({nuc!r}, ...)", "raised": raised},
+                     observed=c.getNumberDensity(nuc), expected=old)
 
 
 def api_stream(ctx, seq_seed):
@@ -490,7 +595,7 @@ def api_stream(ctx, seq_seed):
     with common.quiet():
         r = copy.deepcopy(fixture())
     ses = Session(ctx, seq_seed, {"req": [], "impl": [], "cases": [], "mask_serial": set(), "serial_sets": {}})
-    objs = preorder(r)
+    objs = preorder(r) + preorder(make_rack(rng))
     for o in objs:
         ses.register(o)
     comps = [o for o in objs if hasattr(o, "setTemperature") and hasattr(o, "material")]
@@ -515,8 +620,12 @@ def api_stream(ctx, seq_seed):
                 b.setHeight(b.getHeight() * rng.choice([1.25, 0.5]))
                 b.parent.calculateZCoords()
             elif k == "pitch":
-                o = rng.choice([o for o in objs if o.spatialGrid is not None and type(o.spatialGrid).__name__ == "HexGrid"])
-                o.spatialGrid.changePitch(o.spatialGrid.pitch * rng.choice([2.0, 3.0]))
+                o = rng.choice([o for o in objs if o.spatialGrid is not None and type(o.spatialGrid).__name__ in ("HexGrid", "CartesianGrid")])
+                if type(o.spatialGrid).__name__ == "HexGrid":
+                    o.spatialGrid.changePitch(o.spatialGrid.pitch * rng.choice([2.0, 3.0]))
+                else:
+                    xw, yw = o.spatialGrid.pitch
+                    o.spatialGrid.changePitch(xw * rng.choice([2.0, 3.0]), yw * rng.choice([0.5, 3.0]))
             elif k == "cache":
                 o = rng.choice(objs)
                 o._setCache("k0", rng.random())
@@ -546,8 +655,11 @@ def api_stream(ctx, seq_seed):
             if after[id(o)] != want:
                 bad = [k for k in want if want[k] != after[id(o)][k]]
                 key = "retain-api-state-not-restored" if id(o) in sub else "retain-touches-object-outside-scope"
-                if bad == ["<grid>"]:
+                if bad and set(bad) <= {"<grid>", "<childcoords>"}:
                     key = "retain-grid-not-restored"
+                if bad == ["<matcache>"] and o is root:
+                    # StateRetainer iterates (root,) + iterChildrenWithMaterials(): the ROOT's own material is skipped
+                    key = "retain-root-material-cache-leaks"
                 ctx.fail(key, "arbitrary changes below the scope's object (number densities, temperatures, heights, grid pitch/"
                          "bounds) are undone at scope exit", {"seq_seed": seq_seed, "stream": "api", "object": ses.ids[id(o)],
                                                               "type": type(o).__name__, "params": bad[:6], "depth": depth})
@@ -570,12 +682,16 @@ def run_session(ctx, seq_seed, batch, nscopes):
             a2.makeUnique()
             r.core.add(a2, r.core.spatialGrid[k + 1, 0, 0])
     ses.mirror(r)
+    rack = make_rack(rng)
+    ses.mirror(rack)
     allobjs = list(ses.objs)
     try:
         with common.quiet():
             for _ in range(nscopes):
                 k = rng.random()
-                if k < 0.7:
+                if k < 0.25:
+                    directed_nested_keep(ses, allobjs)
+                elif k < 0.7:
                     scope(ses, allobjs, 1)
                 elif k < 0.85:
                     allobjs = allobjs + do_copies(ses, allobjs)
@@ -614,18 +730,29 @@ def excluded_points(ctx):
                  "a kept parameter assigned inside the scope retains its new value and the scope ends normally",
                  {"object": "block", "param": "mgFlux", "entry": "array shape (3,)", "inside": "array shape (2,)", "keep": ["mgFlux"]},
                  observed=err or "wrong values after the scope", expected="mgFlux == [1,2], power restored")
-    ctx.count("excluded points run", 1)
+    # in-place edit of the grid's arrays inside a scope (StructuredGrid.backUp keeps references, not copies)
+    rack = make_rack(random.Random(5))
+    g = rack.spatialGrid
+    before = (canon(g._unitSteps), canon(g._bounds), canon(g._offset))
+    with rack.retainState():
+        g._offset[0] = g._offset[0] + 7.0
+    if (canon(g._unitSteps), canon(g._bounds), canon(g._offset)) != before:
+        ctx.fail("retain-grid-inplace-edit-leaks", "changes to grid pitch/bounds/offset inside a scope are undone",
+                 {"grid": "CartesianGrid.fromRectangle(.., isOffset=True)", "inside": "grid._offset[0] += 7.0 (in place)"},
+                 observed=str(g._offset), expected="offset as at scope entry")
+    ctx.count("excluded points run", 2)
 
 
 def run(ctx):
     batch = {"req": [], "impl": [], "cases": [], "mask_serial": set(), "serial_sets": {}}
     fixture()
-    excluded_points(ctx)
-    nses = ctx.pick(30, 600)
+    nses = ctx.pick(14, 300)
     for _ in range(nses):
         run_session(ctx, ctx.rng.randrange(1 << 40), batch, ctx.rng.randint(1, ctx.pick(5, 8)))
     for _ in range(ctx.pick(15, 300)):
         api_stream(ctx, ctx.rng.randrange(1 << 40))
+    # last: the raising scope exit leaves the (process-global) definition back-up chains unbalanced
+    excluded_points(ctx)
     model = lean_run("Params", batch["req"])
     rows = []
     import re
